@@ -5,11 +5,22 @@ from . import gen, netcase
 from .lib import coq_Z, coq_list, coq_nat
 
 
-def interstitial_pool(ck, rng, n, random_frac=0.6, dims=(2, 3), names=None):
-    """yield (label, crys, chem, cut, sl, jn, calc) for percolating interstitial-type networks"""
+FORCED = ["hcp-oct-tet", "pmm2-3w", "wurtzite-int", "polar2w", "sq2w", "fcc-oct-tet"]
+
+
+def interstitial_pool(ck, rng, n, random_frac=0.6, dims=(2, 3), names=None, forced=True):
+    """yield (label, crys, chem, cut, sl, jn, calc) for percolating interstitial-type networks.  The first entries are
+    always the multi-Wyckoff / polar crystals of FORCED with the atoms listed in a random (interleaving) order."""
     from onsager import OnsagerCalc
     out = 0
-    for label, crys, chem in gen.pool(rng, 4 * n, random_frac=random_frac, dims=dims, names=names):
+    def source():
+        if forced:
+            fl = list(FORCED); rng.shuffle(fl)
+            for nm in fl[:max(3, n // 2)]:
+                crys, chem = gen.named(nm)
+                if crys.dim in dims: yield nm + "~perm", gen.shuffled(crys, rng), chem
+        yield from gen.pool(rng, 4 * n, random_frac=random_frac, dims=dims, names=names)
+    for label, crys, chem in source():
         if out >= n: break
         try:
             net = gen.percolating_network(crys, chem, rng)
